@@ -3,7 +3,7 @@
    patterns) and an element type.  What h5py/HDF5 do with chunks, compression and fill values
    is tied by correspondence on histories (all 12 element types, 27 compression triples). *)
 From Coq Require Import ZArith List.
-From NixV Require Import Base.Prelude Pure.Slices Pure.Array Proofs.ArrayProofs.
+From NixV Require Import Base.Prelude Pure.Slices Pure.Array Proofs.ArrayProofs Proofs.ArrayProofs2.
 Import ListNotations.
 Open Scope Z_scope.
 
@@ -25,6 +25,25 @@ Theorem c01_region_frame : forall a sels vals k,
   nth k (a_cells (write_region a sels vals)) 0 = nth k (a_cells a) 0.
 Proof. exact region_frame. Qed.
 Print Assumptions c01_region_frame.
+
+(* the same with the hypotheses derived: for a well-formed array (non-negative extents, one cell per
+   multi-index) and ANY selection whose items lie within the extents (integers 0 <= i < n, ranges
+   0 <= a, b <= n with a positive step - what C06's normalisation produces), the selected cells are
+   pairwise distinct and exist; so the assigned values read back, and every cell outside the
+   selection keeps its value *)
+Theorem c01_region_inbounds : forall a sels vals,
+  arr_wf a -> Forall2 sel_ok sels (a_shape a) -> length vals = length (offsets_of (a_shape a) sels) ->
+  read_region (write_region a sels vals) sels = vals /\
+  a_shape (write_region a sels vals) = a_shape a /\
+  length (a_cells (write_region a sels vals)) = length (a_cells a) /\
+  (forall k, (forall o, In o (offsets_of (a_shape a) sels) -> Z.to_nat o <> k) ->
+     nth k (a_cells (write_region a sels vals)) 0 = nth k (a_cells a) 0).
+Proof. exact read_after_write_region_inbounds. Qed.
+Print Assumptions c01_region_inbounds.
+Theorem c01_selection_cells_distinct : forall shape sels, nonneg shape -> Forall2 sel_ok sels shape ->
+  NoDup (map Z.to_nat (offsets_of shape sels)) /\ (forall o, In o (offsets_of shape sels) -> 0 <= o < sizeZ shape).
+Proof. exact inbounds_selection_offsets. Qed.
+Print Assumptions c01_selection_cells_distinct.
 
 Theorem c01_write_all : forall a vals,
   read_all (write_all a vals) = vals /\ a_shape (write_all a vals) = a_shape a.
